@@ -927,3 +927,54 @@ Lemma sc_lookup_miss c p text :
 Proof.
   intro F. unfold sc_lookup. rewrite F. split; [reflexivity|]. rewrite sc_find_app, F, N.eqb_refl. reflexivity.
 Qed.
+
+(* ================================================================== several saves *)
+Lemma hist_final_ops h : forall r, hist_final r h = fold_left reg_step (ops_of h) r.
+Proof.
+  induction h as [|x h IH]; intro r; [reflexivity|].
+  unfold hist_final in *. cbn [fold_left]. destruct x as [o|]; cbn [hist_step ops_of flat_map app fold_left]; apply IH.
+Qed.
+
+(* saveLog is read-only: the recorder after a history with saves is the recorder after the same
+   history without them *)
+Lemma save_is_read_only h : hist_final [] h = reg_run (ops_of h).
+Proof. apply hist_final_ops. Qed.
+
+Lemma hist_saves_app h1 : forall r h2,
+  hist_saves r (h1 ++ h2) = hist_saves r h1 ++ hist_saves (hist_final r h1) h2.
+Proof.
+  induction h1 as [|x h1 IH]; intros r h2; [reflexivity|].
+  unfold hist_final. cbn [app hist_saves fold_left]. destruct x as [o|]; cbn [hist_step].
+  - apply IH.
+  - cbn [app]. f_equal. apply IH.
+Qed.
+
+(* the save that follows h1 sees, under every thread id, exactly the events recorded in h1 -
+   earlier saves or not *)
+Lemma save_sees_everything_so_far h1 h2 id :
+  reg_evs (nth (length (hist_saves [] h1)) (hist_saves [] (h1 ++ HSave :: h2)) []) id = recs_of id (ops_of h1).
+Proof.
+  rewrite hist_saves_app. cbn [hist_saves]. rewrite app_nth2 by lia. rewrite Nat.sub_diag. cbn [nth].
+  rewrite save_is_read_only. apply reg_events_of.
+Qed.
+
+Lemma ops_of_app h1 h2 : ops_of (h1 ++ h2) = ops_of h1 ++ ops_of h2.
+Proof. unfold ops_of. apply flat_map_app. Qed.
+
+Lemma recs_of_app id a b : recs_of id (a ++ b) = recs_of id a ++ recs_of id b.
+Proof. unfold recs_of. apply flat_map_app. Qed.
+
+(* a later save contains, for every thread id, everything an earlier save contained, as a prefix *)
+Lemma later_save_contains_earlier_events h1 h2 h3 id :
+  let all := h1 ++ HSave :: h2 ++ HSave :: h3 in
+  let first := nth (length (hist_saves [] h1)) (hist_saves [] all) [] in
+  let second := nth (length (hist_saves [] (h1 ++ HSave :: h2))) (hist_saves [] all) [] in
+  reg_evs second id = reg_evs first id ++ recs_of id (ops_of h2).
+Proof.
+  intros all first second. subst first second all.
+  rewrite (save_sees_everything_so_far h1 (h2 ++ HSave :: h3) id).
+  replace (h1 ++ HSave :: h2 ++ HSave :: h3) with ((h1 ++ HSave :: h2) ++ HSave :: h3)
+    by (rewrite <- app_assoc; reflexivity).
+  rewrite (save_sees_everything_so_far (h1 ++ HSave :: h2) h3 id).
+  rewrite ops_of_app, recs_of_app. cbn [ops_of flat_map app]. reflexivity.
+Qed.
